@@ -3,7 +3,7 @@ CONSTANTS N = 4
   Intervals = {0, 1, 2, 3}
   Scripts = {"none", "dis_self", "dis_o1", "dis_o2", "dis_o3", "dis_o4", "en_o1_1", "en_o2_2", "en_o3_1", "en_o4_3", "dest_self", "dest_o1", "dest_o2", "dest_o3", "err", "mk", "dis_o1_err", "dis_o2_dis_self", "en_self_2", "dest_o3_dis_o1"}
   Steps = 5
-  TopOps = {"hb:o1:0", "hb:o2:1", "hb:o3:2", "dest:o1", "dest:o4", "hb:o4:0"}
+  TopOps = {"hb:o1:0", "hb:o2:1", "hb:o3:2", "dest:o1", "dest:o4", "hb:o4:0", "set=kx=err;co:A:1:kx", "set=ky=err;co:A:3:ky"}
   Sim = TRUE
 INVARIANT Emit
 CHECK_DEADLOCK FALSE
